@@ -253,3 +253,355 @@ Proof.
     apply all_paths_in. split; [exact Hl|].
     apply Forall_forall. intros p Hp. apply perms_in. rewrite Forall_forall in Hf. apply Hf. exact Hp.
 Qed.
+
+(* ------------------------------------------------------------------------------------------ *)
+(* zero on equal inputs                                                                        *)
+(* ------------------------------------------------------------------------------------------ *)
+
+Lemma num_switches_refl : forall p, num_switches p p = 0%N.
+Proof. induction p as [|a p IH]; [reflexivity|]. cbn [num_switches]. rewrite Nat.eqb_refl, IH. reflexivity. Qed.
+
+Lemma num_flips_id_gen : forall c1 pre,
+  num_flips (seq (length pre) (length c1)) (pre ++ c1) c1 = 0%N.
+Proof.
+  induction c1 as [|b t IH]; intro pre; [reflexivity|].
+  cbn [length seq num_flips]. rewrite nth_middle, Z.eqb_refl.
+  specialize (IH (pre ++ [b])). rewrite app_length in IH. cbn [length] in IH.
+  rewrite Nat.add_1_r, <- app_assoc in IH. cbn [app] in IH. rewrite IH. reflexivity.
+Qed.
+
+Lemma num_flips_id : forall c, num_flips (seq 0 (length c)) c c = 0%N.
+Proof. intro c. apply (num_flips_id_gen c []). Qed.
+
+Definition dup_cols (cl : list column) : cols := map (fun c => (c, c)) cl.
+
+Lemma path_sf_from_id : forall k cl, Forall (fun c => length c = k) cl ->
+  path_sf_from (seq 0 k) (repeat (seq 0 k) (length cl)) (dup_cols cl) = (0%N, 0%N).
+Proof.
+  intros k cl H. induction H as [|c cl Hc _ IH]; [reflexivity|].
+  cbn [length repeat dup_cols map path_sf_from]. fold (dup_cols cl).
+  rewrite IH, num_switches_refl. subst k. rewrite num_flips_id. reflexivity.
+Qed.
+
+Lemma sf_spec_zero_on_equal : forall sc fc k cl, Forall (fun c => length c = k) cl ->
+  sf_spec sc fc k (dup_cols cl) = 0%N.
+Proof.
+  intros sc fc k cl H.
+  destruct (sf_spec_is_min sc fc k (dup_cols cl)) as [_ Hle].
+  specialize (Hle (repeat (seq 0 k) (length cl))).
+  assert (Hcost : path_cost sc fc (repeat (seq 0 k) (length cl)) (dup_cols cl) = 0%N).
+  { unfold path_cost. destruct H as [|c cl Hc Hcl]; [cbn; lia|].
+    cbn [length repeat dup_cols map path_sf]. fold (dup_cols cl).
+    rewrite (path_sf_from_id k cl Hcl). subst k. rewrite num_flips_id. cbn [fst snd]. lia. }
+  rewrite Hcost in Hle.
+  assert ((sf_spec sc fc k (dup_cols cl) <= 0)%N).
+  { apply Hle.
+    - rewrite repeat_length. unfold dup_cols. rewrite map_length. reflexivity.
+    - apply Forall_forall. intros p Hp. apply repeat_spec in Hp. subst. apply Permutation_refl. }
+  lia.
+Qed.
+
+(* ------------------------------------------------------------------------------------------ *)
+(* invariance under permuting the rows of either phasing                                       *)
+(* ------------------------------------------------------------------------------------------ *)
+
+(* (compose a b)[i] = a[b[i]] *)
+Definition compose (a b : perm) : perm := map (fun x => nth x a 0) b.
+
+Definition nsum (l : list N) : N := fold_right N.add 0%N l.
+
+Lemma nsum_perm : forall l l', Permutation l l' -> nsum l = nsum l'.
+Proof. intros l l' H. unfold nsum. induction H; cbn [fold_right]; lia. Qed.
+
+Lemma map_nth_seq : forall (A : Type) (l : list A) (d : A),
+  map (fun i => nth i l d) (seq 0 (length l)) = l.
+Proof.
+  intros A l d. induction l as [|a l IH]; [reflexivity|].
+  cbn [length seq map nth]. f_equal.
+  rewrite <- seq_shift, map_map. cbn [nth]. exact IH.
+Qed.
+
+Lemma nth_map_lt : forall (A B : Type) (f : A -> B) (l : list A) (d : A) (d' : B) (x : nat),
+  x < length l -> nth x (map f l) d' = f (nth x l d).
+Proof.
+  intros A B f l d d' x Hx. rewrite (nth_indep (map f l) d' (f d)) by (rewrite map_length; exact Hx).
+  apply map_nth.
+Qed.
+
+Lemma is_perm_length : forall k p, is_perm k p -> length p = k.
+Proof. intros k p H. apply Permutation_length in H. rewrite seq_length in H. exact H. Qed.
+
+Lemma is_perm_lt : forall k p x, is_perm k p -> In x p -> x < k.
+Proof. intros k p x H Hx. apply (Permutation_in x H) in Hx. apply in_seq in Hx. lia. Qed.
+
+Lemma is_perm_nodup : forall k p, is_perm k p -> NoDup p.
+Proof. intros k p H. apply (Permutation_NoDup (Permutation_sym H)). apply seq_NoDup. Qed.
+
+Lemma compose_is_perm : forall k a b, is_perm k a -> is_perm k b -> is_perm k (compose a b).
+Proof.
+  intros k a b Ha Hb. unfold is_perm, compose.
+  apply (Permutation_trans (Permutation_map (fun x => nth x a 0) Hb)).
+  rewrite <- (is_perm_length k a Ha) at 1. rewrite map_nth_seq. exact Ha.
+Qed.
+
+Lemma num_flips_map : forall (s : list nat) (f : nat -> nat) (h : nat -> Z) c0,
+  num_flips (map f s) c0 (map h s)
+  = nsum (map (fun x => if Z.eqb (nth (f x) c0 0%Z) (h x) then 0%N else 1%N) s).
+Proof.
+  induction s as [|x s IH]; intros f h c0; [reflexivity|].
+  cbn [map num_flips nsum fold_right]. rewrite IH. reflexivity.
+Qed.
+
+Lemma num_switches_map : forall (s : list nat) (f g : nat -> nat),
+  num_switches (map f s) (map g s)
+  = nsum (map (fun x => if Nat.eqb (f x) (g x) then 0%N else 1%N) s).
+Proof.
+  induction s as [|x s IH]; intros f g; [reflexivity|].
+  cbn [map num_switches nsum fold_right]. rewrite IH. reflexivity.
+Qed.
+
+(* --- rows of phasing1 permuted: path r on (c0, c1)  |->  path (compose r s) on (c0, c1 o s) --- *)
+Lemma num_flips_permute1 : forall k s r c0 c1, is_perm k s -> length r = k -> length c1 = k ->
+  num_flips (compose r s) c0 (permute_col s c1) = num_flips r c0 c1.
+Proof.
+  intros k s r c0 c1 Hs Hr Hc. unfold compose, permute_col.
+  rewrite (num_flips_map s (fun x => nth x r 0) (fun i => nth i c1 0%Z) c0).
+  rewrite (nsum_perm _ _ (Permutation_map _ Hs)).
+  rewrite <- (num_flips_map (seq 0 k) (fun x => nth x r 0) (fun i => nth i c1 0%Z) c0).
+  rewrite <- Hr at 1. rewrite map_nth_seq. rewrite <- Hc at 1. rewrite map_nth_seq. reflexivity.
+Qed.
+
+Lemma num_switches_permute1 : forall k s r r', is_perm k s -> length r = k -> length r' = k ->
+  num_switches (compose r s) (compose r' s) = num_switches r r'.
+Proof.
+  intros k s r r' Hs Hr Hr'. unfold compose.
+  rewrite (num_switches_map s (fun x => nth x r 0) (fun x => nth x r' 0)).
+  rewrite (nsum_perm _ _ (Permutation_map _ Hs)).
+  rewrite <- (num_switches_map (seq 0 k) (fun x => nth x r 0) (fun x => nth x r' 0)).
+  rewrite <- Hr at 1. rewrite map_nth_seq. rewrite <- Hr' at 1. rewrite map_nth_seq. reflexivity.
+Qed.
+
+(* --- rows of phasing0 permuted: path p on (c0 o s, c1)  |->  path (compose s p) on (c0, c1) --- *)
+Lemma num_flips_permute0 : forall s p c0 c1, Forall (fun x => x < length s) p ->
+  num_flips (compose s p) c0 c1 = num_flips p (permute_col s c0) c1.
+Proof.
+  intros s p c0. induction p as [|x p IH]; intros c1 Hp; [reflexivity|].
+  destruct c1 as [|b c1]; [reflexivity|].
+  inversion Hp as [|? ? Hx Hp']; subst.
+  unfold compose in *. cbn [map num_flips]. rewrite IH by exact Hp'.
+  unfold permute_col. rewrite (nth_map_lt _ _ (fun i => nth i c0 0%Z) s 0 0%Z x Hx). reflexivity.
+Qed.
+
+Lemma num_switches_permute0 : forall s p q, NoDup s ->
+  Forall (fun x => x < length s) p -> Forall (fun x => x < length s) q ->
+  num_switches (compose s p) (compose s q) = num_switches p q.
+Proof.
+  intros s p q Hnd. revert q. induction p as [|x p IH]; intros q Hp Hq; [reflexivity|].
+  destruct q as [|y q]; [reflexivity|].
+  inversion Hp as [|? ? Hx Hp']; subst. inversion Hq as [|? ? Hy Hq']; subst.
+  unfold compose in *. cbn [map num_switches]. rewrite IH by assumption. f_equal.
+  destruct (Nat.eqb x y) eqn:E.
+  - apply Nat.eqb_eq in E. subst. rewrite Nat.eqb_refl. reflexivity.
+  - destruct (Nat.eqb (nth x s 0) (nth y s 0)) eqn:E'; [|reflexivity].
+    apply Nat.eqb_eq in E'. apply (proj1 (NoDup_nth s 0) Hnd x y Hx Hy) in E'.
+    subst. rewrite Nat.eqb_refl in E. discriminate.
+Qed.
+
+Definition cols_ok (k : nat) (cs : cols) : Prop :=
+  Forall (fun c => length (fst c) = k /\ length (snd c) = k) cs.
+
+Lemma is_perm_forall_lt : forall k s p, is_perm k s -> is_perm k p -> Forall (fun x => x < length s) p.
+Proof.
+  intros k s p Hs Hp. apply Forall_forall. intros x Hx.
+  rewrite (is_perm_length k s Hs). apply (is_perm_lt k p x Hp Hx).
+Qed.
+
+Lemma path_sf_from_permute0 : forall k s, is_perm k s -> forall cs path prev,
+  is_perm k prev -> Forall (is_perm k) path ->
+  path_sf_from (compose s prev) (map (compose s) path) cs = path_sf_from prev path (permute0 s cs).
+Proof.
+  intros k s Hs. induction cs as [|[c0 c1] ct IH]; intros path prev Hprev Hpath.
+  - destruct path; reflexivity.
+  - destruct path as [|p pt]; [reflexivity|]. inversion Hpath as [|? ? Hp Hpt]; subst.
+    cbn [map path_sf_from permute0 fst snd]. fold (permute0 s ct).
+    rewrite (IH pt p Hp Hpt).
+    rewrite (num_switches_permute0 s p prev (is_perm_nodup k s Hs)
+               (is_perm_forall_lt k s p Hs Hp) (is_perm_forall_lt k s prev Hs Hprev)).
+    rewrite (num_flips_permute0 s p c0 c1 (is_perm_forall_lt k s p Hs Hp)). reflexivity.
+Qed.
+
+Lemma path_cost_permute0 : forall sc fc k s cs path, is_perm k s -> Forall (is_perm k) path ->
+  path_cost sc fc (map (compose s) path) cs = path_cost sc fc path (permute0 s cs).
+Proof.
+  intros sc fc k s cs path Hs Hpath. unfold path_cost.
+  destruct cs as [|[c0 c1] ct]; [destruct path; reflexivity|].
+  destruct path as [|p pt]; [reflexivity|]. inversion Hpath as [|? ? Hp Hpt]; subst.
+  cbn [map path_sf permute0 fst snd]. fold (permute0 s ct).
+  rewrite (path_sf_from_permute0 k s Hs ct pt p Hp Hpt).
+  rewrite (num_flips_permute0 s p c0 c1 (is_perm_forall_lt k s p Hs Hp)). reflexivity.
+Qed.
+
+Lemma path_sf_from_permute1 : forall k s, is_perm k s -> forall cs path prev,
+  cols_ok k cs -> is_perm k prev -> Forall (is_perm k) path ->
+  path_sf_from (compose prev s) (map (fun r => compose r s) path) (permute1 s cs)
+  = path_sf_from prev path cs.
+Proof.
+  intros k s Hs. induction cs as [|[c0 c1] ct IH]; intros path prev Hok Hprev Hpath.
+  - destruct path; reflexivity.
+  - destruct path as [|p pt]; [reflexivity|]. inversion Hpath as [|? ? Hp Hpt]; subst.
+    inversion Hok as [|? ? Hc01 Hok']; subst. destruct Hc01 as [_ Hc1]. cbn [snd] in Hc1.
+    cbn [map path_sf_from permute1 fst snd]. fold (permute1 s ct).
+    rewrite (IH pt p Hok' Hp Hpt).
+    rewrite (num_switches_permute1 k s p prev Hs (is_perm_length k p Hp) (is_perm_length k prev Hprev)).
+    rewrite (num_flips_permute1 k s p c0 c1 Hs (is_perm_length k p Hp) Hc1). reflexivity.
+Qed.
+
+Lemma path_cost_permute1 : forall sc fc k s cs path, is_perm k s -> cols_ok k cs ->
+  Forall (is_perm k) path ->
+  path_cost sc fc (map (fun r => compose r s) path) (permute1 s cs) = path_cost sc fc path cs.
+Proof.
+  intros sc fc k s cs path Hs Hok Hpath. unfold path_cost.
+  destruct cs as [|[c0 c1] ct]; [destruct path; reflexivity|].
+  destruct path as [|p pt]; [reflexivity|]. inversion Hpath as [|? ? Hp Hpt]; subst.
+  inversion Hok as [|? ? Hc01 Hok']; subst. destruct Hc01 as [_ Hc1]. cbn [snd] in Hc1.
+  cbn [map path_sf permute1 fst snd]. fold (permute1 s ct).
+  rewrite (path_sf_from_permute1 k s Hs ct pt p Hok' Hp Hpt).
+  rewrite (num_flips_permute1 k s p c0 c1 Hs (is_perm_length k p Hp) Hc1). reflexivity.
+Qed.
+
+Lemma permute0_length : forall s cs, length (permute0 s cs) = length cs.
+Proof. intros. unfold permute0. apply map_length. Qed.
+Lemma permute1_length : forall s cs, length (permute1 s cs) = length cs.
+Proof. intros. unfold permute1. apply map_length. Qed.
+
+(* one inequality each, by mapping paths *)
+Lemma sf_spec_permute0_le : forall sc fc k s cs, is_perm k s ->
+  (sf_spec sc fc k cs <= sf_spec sc fc k (permute0 s cs))%N.
+Proof.
+  intros sc fc k s cs Hs.
+  destruct (sf_spec_is_min sc fc k (permute0 s cs)) as [[path [Hl [Hf Hc]]] _].
+  destruct (sf_spec_is_min sc fc k cs) as [_ Hle].
+  rewrite <- Hc, <- (path_cost_permute0 sc fc k s cs path Hs Hf).
+  apply Hle.
+  - rewrite map_length, Hl. apply permute0_length.
+  - apply Forall_forall. intros p Hp. apply in_map_iff in Hp. destruct Hp as [q [Hq Hin]]. subst.
+    apply compose_is_perm; [exact Hs|]. rewrite Forall_forall in Hf. apply Hf. exact Hin.
+Qed.
+
+Lemma sf_spec_permute1_le : forall sc fc k s cs, is_perm k s -> cols_ok k cs ->
+  (sf_spec sc fc k (permute1 s cs) <= sf_spec sc fc k cs)%N.
+Proof.
+  intros sc fc k s cs Hs Hok.
+  destruct (sf_spec_is_min sc fc k cs) as [[path [Hl [Hf Hc]]] _].
+  destruct (sf_spec_is_min sc fc k (permute1 s cs)) as [_ Hle].
+  rewrite <- Hc, <- (path_cost_permute1 sc fc k s cs path Hs Hok Hf).
+  apply Hle.
+  - rewrite map_length, Hl. symmetry. apply permute1_length.
+  - apply Forall_forall. intros p Hp. apply in_map_iff in Hp. destruct Hp as [q [Hq Hin]]. subst.
+    apply compose_is_perm; [|exact Hs]. rewrite Forall_forall in Hf. apply Hf. exact Hin.
+Qed.
+
+(* inverse permutation *)
+Lemma preimages : forall (s : list nat) (l : list nat), (forall j, In j l -> In j s) ->
+  exists t, map (fun x => nth x s 0) t = l /\ Forall (fun x => x < length s) t.
+Proof.
+  intros s l. induction l as [|j l IH]; intro H.
+  - exists []. split; [reflexivity|constructor].
+  - destruct IH as [t [Ht Hf]]; [intros x Hx; apply H; right; exact Hx|].
+    destruct (In_nth s j 0 (H j (or_introl eq_refl))) as [i [Hi Hn]].
+    exists (i :: t). split; [cbn [map]; rewrite Hn, Ht; reflexivity|constructor; assumption].
+Qed.
+
+Lemma inverse_perm : forall k s, is_perm k s ->
+  exists t, is_perm k t /\ compose s t = seq 0 k.
+Proof.
+  intros k s Hs.
+  destruct (preimages s (seq 0 k)) as [t [Ht Hf]].
+  { intros j Hj. apply (Permutation_in j (Permutation_sym Hs)). exact Hj. }
+  exists t. split; [|exact Ht].
+  assert (Hlen : length t = k).
+  { rewrite <- (map_length (fun x => nth x s 0) t), Ht. apply seq_length. }
+  unfold is_perm. apply NoDup_Permutation_bis.
+  - apply (NoDup_map_inv (fun x => nth x s 0)). rewrite Ht. apply seq_NoDup.
+  - rewrite seq_length, Hlen. lia.
+  - intros x Hx. rewrite Forall_forall in Hf. specialize (Hf x Hx).
+    rewrite (is_perm_length k s Hs) in Hf. apply in_seq. lia.
+Qed.
+
+Lemma permute_col_compose : forall s t c, Forall (fun x => x < length s) t ->
+  permute_col t (permute_col s c) = permute_col (compose s t) c.
+Proof.
+  intros s t c Hf. unfold permute_col, compose. rewrite map_map.
+  apply map_ext_in. intros x Hx. rewrite Forall_forall in Hf.
+  apply (nth_map_lt _ _ (fun i => nth i c 0%Z) s 0 0%Z x (Hf x Hx)).
+Qed.
+
+Lemma permute_col_id : forall c, permute_col (seq 0 (length c)) c = c.
+Proof. intro c. unfold permute_col. apply map_nth_seq. Qed.
+
+Lemma permute_col_length : forall s c, length (permute_col s c) = length s.
+Proof. intros. unfold permute_col. apply map_length. Qed.
+
+Lemma permute0_inverse : forall k s t cs, is_perm k s -> is_perm k t -> compose s t = seq 0 k ->
+  cols_ok k cs -> permute0 t (permute0 s cs) = cs.
+Proof.
+  intros k s t cs Hs Ht Hst Hok. unfold permute0. rewrite map_map. cbn [fst snd].
+  rewrite <- (map_id cs) at 2. apply map_ext_in. intros [c0 c1] Hc. cbn [fst snd].
+  unfold cols_ok in Hok. rewrite Forall_forall in Hok. destruct (Hok _ Hc) as [H0 _]. cbn [fst] in H0.
+  rewrite (permute_col_compose s t c0 (is_perm_forall_lt k s t Hs Ht)), Hst, <- H0, permute_col_id.
+  reflexivity.
+Qed.
+
+Lemma permute1_inverse : forall k s t cs, is_perm k s -> is_perm k t -> compose s t = seq 0 k ->
+  cols_ok k cs -> permute1 t (permute1 s cs) = cs.
+Proof.
+  intros k s t cs Hs Ht Hst Hok. unfold permute1. rewrite map_map. cbn [fst snd].
+  rewrite <- (map_id cs) at 2. apply map_ext_in. intros [c0 c1] Hc. cbn [fst snd].
+  unfold cols_ok in Hok. rewrite Forall_forall in Hok. destruct (Hok _ Hc) as [_ H1]. cbn [snd] in H1.
+  rewrite (permute_col_compose s t c1 (is_perm_forall_lt k s t Hs Ht)), Hst, <- H1, permute_col_id.
+  reflexivity.
+Qed.
+
+Lemma cols_ok_permute0 : forall k s cs, is_perm k s -> cols_ok k cs -> cols_ok k (permute0 s cs).
+Proof.
+  intros k s cs Hs Hok. unfold cols_ok, permute0 in *. rewrite Forall_forall in *.
+  intros c Hc. apply in_map_iff in Hc. destruct Hc as [[c0 c1] [Hc Hin]]. subst c. cbn [fst snd].
+  destruct (Hok _ Hin) as [_ H1]. split; [rewrite permute_col_length; apply (is_perm_length k s Hs)|exact H1].
+Qed.
+
+Lemma cols_ok_permute1 : forall k s cs, is_perm k s -> cols_ok k cs -> cols_ok k (permute1 s cs).
+Proof.
+  intros k s cs Hs Hok. unfold cols_ok, permute1 in *. rewrite Forall_forall in *.
+  intros c Hc. apply in_map_iff in Hc. destruct Hc as [[c0 c1] [Hc Hin]]. subst c. cbn [fst snd].
+  destruct (Hok _ Hin) as [H0 _]. split; [exact H0|rewrite permute_col_length; apply (is_perm_length k s Hs)].
+Qed.
+
+Lemma sf_spec_permute0 : forall sc fc k s cs, is_perm k s -> cols_ok k cs ->
+  sf_spec sc fc k (permute0 s cs) = sf_spec sc fc k cs.
+Proof.
+  intros sc fc k s cs Hs Hok.
+  destruct (inverse_perm k s Hs) as [t [Ht Hst]].
+  pose proof (sf_spec_permute0_le sc fc k s cs Hs) as H1.
+  pose proof (sf_spec_permute0_le sc fc k t (permute0 s cs) Ht) as H2.
+  rewrite (permute0_inverse k s t cs Hs Ht Hst Hok) in H2. lia.
+Qed.
+
+Lemma sf_spec_permute1 : forall sc fc k s cs, is_perm k s -> cols_ok k cs ->
+  sf_spec sc fc k (permute1 s cs) = sf_spec sc fc k cs.
+Proof.
+  intros sc fc k s cs Hs Hok.
+  destruct (inverse_perm k s Hs) as [t [Ht Hst]].
+  pose proof (sf_spec_permute1_le sc fc k s cs Hs Hok) as H1.
+  pose proof (sf_spec_permute1_le sc fc k t (permute1 s cs) Ht (cols_ok_permute1 k s cs Hs Hok)) as H2.
+  rewrite (permute1_inverse k s t cs Hs Ht Hst Hok) in H2. lia.
+Qed.
+
+Lemma sf_permutation_invariance : forall (sc fc : N) (k : nat) (s : perm) (cs : cols),
+  Permutation s (seq 0 k) ->
+  Forall (fun c => length (fst c) = k /\ length (snd c) = k) cs ->
+  sf_spec sc fc k (permute0 s cs) = sf_spec sc fc k cs /\
+  sf_spec sc fc k (permute1 s cs) = sf_spec sc fc k cs.
+Proof.
+  intros sc fc k s cs Hs Hok.
+  split; [exact (sf_spec_permute0 sc fc k s cs Hs Hok)|exact (sf_spec_permute1 sc fc k s cs Hs Hok)].
+Qed.
